@@ -53,6 +53,7 @@ class EngineTrace:
         self.max_errors = max_errors
         self.scheduler = scheduler
         self.labels = []          # [(label string, snapshot string | None)]
+        self.fine = []            # the same labels plus "acq w y" / "unl w" of remaining_pred_count_lock (fine model)
         self.timeline = []        # labels and raw events interleaved, in real order
         self.events = []          # raw monitor events: ('begin', w, x) ('endok', w, x) ('endfail', w, x, exc)
         self.workers = []
@@ -173,6 +174,7 @@ class Sched:
         if tr is None:
             return
         tr.labels.append((label, self.snapshot(tr) if self.snapshots else None))
+        tr.fine.append(label)
         tr.timeline.append("L:" + label)
 
     def flush_pending(self, ts):
@@ -243,6 +245,12 @@ class CoopLock:
         self.owner = me
         if self.name:
             me.holding.add(self.name)
+        if self.name == "remaining_pred_count_lock" and me.trace is not None and me.widx is not None and not s.aborting:
+            f = sys._getframe(1)
+            while f is not None and f.f_code.co_name != "process_node":
+                f = f.f_back
+            succ = f.f_locals.get("successor") if f is not None else None
+            me.trace.fine.append("acq %d %s" % (me.widx, me.trace.ids[succ] if succ in me.trace.ids else "?"))
         return True
 
     def release(self):
@@ -252,6 +260,8 @@ class CoopLock:
             self.owner = None
             return
         self._on_release(me)
+        if self.name == "remaining_pred_count_lock" and me.trace is not None and me.widx is not None:
+            me.trace.fine.append("unl %d" % me.widx)
         self.owner = None
         if self.name:
             me.holding.discard(self.name)
